@@ -293,6 +293,16 @@ def exprVerdict (ptok obs : String) : String :=
       | none => "BADOP expr-hex"
       | some e =>
         let div := if e == modelExpr then "" else s!" ;DIVERGE model={modelHex}"
+        -- predicate on fq's string alone (no model, no parser): every key printed WITHOUT quotes is a pure
+        -- ASCII identifier [A-Za-z_][A-Za-z0-9_]* — anything else is not a jq field token
+        let badKey : Option String :=
+          match unquotedKeys e.toList with
+          | none => some "is not a chain of .key / .\"string\" / [index] segments"
+          | some ks =>
+            match ks.find? (fun k => !(isIdentL k && k.all (fun c => c.toNat < 128))) with
+            | some k => some s!"has the unquoted key {hexOfBytes (String.ofList k).toUTF8.toList} (hex) which is not an ASCII identifier"
+            | none => none
+        if let some why := badKey then s!"PROPFAIL the expression of path_to_expr for {ptok} {why}{div}" else
         -- the model's parser on fq's string (is fq's string inside the modelled language, and does it mean p?)
         let mparse := exprToPath e
         match rest with
